@@ -39,3 +39,59 @@ mod sse2;
     target_feature = "sse2",
 ))]
 pub(crate) type ChaChaEngine<const R: usize> = sse2::State<R>;
+
+#[cfg(all(
+    feature = "verif-hooks",
+    any(target_arch = "x86", target_arch = "x86_64"),
+    any(target_feature = "sse2", target_feature = "avx2")
+))]
+mod reference;
+
+/// Verification hooks: the portable ChaCha engine, driveable on every target
+#[cfg(feature = "verif-hooks")]
+pub mod verif {
+    use super::reference::State;
+
+    /// Portable (non-SIMD) ChaCha engine
+    #[derive(Clone)]
+    pub struct PortableEngine<const R: usize>(State<R>);
+
+    impl<const R: usize> PortableEngine<R> {
+        /// see engine `init`
+        pub fn init(key: &[u8], nonce: &[u8]) -> Self {
+            Self(State::init(key, nonce))
+        }
+        /// see engine `rounds`
+        pub fn rounds(&mut self) {
+            self.0.rounds()
+        }
+        /// see engine `add_back`
+        pub fn add_back(&mut self, initial: &Self) {
+            self.0.add_back(&initial.0)
+        }
+        /// see engine `set_counter`
+        pub fn set_counter(&mut self, counter: u32) {
+            self.0.set_counter(counter)
+        }
+        /// set the 64 bits block counter (words 12 and 13)
+        pub fn set_counter64(&mut self, counter: u64) {
+            self.0.verif_set_counter64(counter)
+        }
+        /// see engine `increment`
+        pub fn increment(&mut self) {
+            self.0.increment()
+        }
+        /// see engine `increment64`
+        pub fn increment64(&mut self) {
+            self.0.increment64()
+        }
+        /// see engine `output_bytes`
+        pub fn output_bytes(&self, output: &mut [u8]) {
+            self.0.output_bytes(output)
+        }
+        /// see engine `output_ad_bytes`
+        pub fn output_ad_bytes(&self, output: &mut [u8; 32]) {
+            self.0.output_ad_bytes(output)
+        }
+    }
+}
